@@ -397,6 +397,7 @@ func main() {
 		fmt.Fprintf(os.Stderr, "unknown property %q\n", *propID)
 		os.Exit(2)
 	}
+	defer runCleanups()
 	start := time.Now()
 	res := &Result{Property: p.ID, Tier: *tier, Seed: *seed, Rule: p.Rule, Distribution: map[string]int{},
 		KnownHits: map[string]int{}, Assumptions: p.Assumptions}
@@ -569,3 +570,16 @@ func main() {
 	fmt.Fprintf(os.Stderr, "fhharness %s: %d cases, %d distinct non-trivial, %d violations, %d known-finding hits, %.1fs\n",
 		p.ID, res.Evaluations, res.DistinctNontrivial, len(res.Violations), len(res.KnownHits), res.WallS)
 }
+
+var cleanups []func()
+
+func runCleanups() {
+	for _, f := range cleanups {
+		f()
+	}
+}
+
+// nopLogger silences fasthttp's per-request logging.
+type nopLogger struct{}
+
+func (nopLogger) Printf(string, ...any) {}
